@@ -138,7 +138,7 @@ Qed.
 
 Lemma C03_scan_true c tr : run c (init c) tr <> None -> scan c (C03_check c) (init c) tr = true.
 Proof.
-  intros Hr. apply (scan_all c (C03_check c) (fun _ _ _ _ _ => I) (InvSlots c)); auto.
+  intros Hr. apply (scan_all c (C03_check c) (InvSlots c)); auto.
   - intros s H. unfold C03_check. destruct (cA c) as [[|a]|] eqn:Ha; auto.
     specialize (H (limited_pos _ _ Ha ltac:(lia))). unfold slots in H. rewrite Ha in H.
     apply andb_true_iff. split; [apply Nat.leb_le | apply Nat.eqb_eq]; lia.
@@ -182,7 +182,7 @@ Qed.
 
 Lemma C01_scan_true c tr : run c (init c) tr <> None -> scan c (C01_check c) (init c) tr = true.
 Proof.
-  intros Hr. apply (scan_all c (C01_check c) (fun _ _ _ _ _ => I) (fun s => Inv c s /\ InvFix c s)); auto.
+  intros Hr. apply (scan_all c (C01_check c) (fun s => Inv c s /\ InvFix c s)); auto.
   - intros s [Hi (X1 & _)]. unfold C01_check. destruct (started_nodup s (i_flow _ _ Hi)) as [N1 N2].
     rewrite (nodupb_spec _ N1), (inclb_spec _ _ N2), X1. cbn [isnil andb].
     destruct (ret s) eqn:Et; [|reflexivity]. destruct (live s) eqn:El; [|reflexivity]. cbn [isnil andb].
@@ -289,7 +289,7 @@ Qed.
 
 Lemma C05_scan_true c tr : run c (init c) tr <> None -> scan c (C05_check c) (init c) tr = true.
 Proof.
-  intros Hr. apply (scan_all c (C05_check c) (fun _ _ _ _ _ => I) (fun s => Inv c s /\ InvFix c s)); auto.
+  intros Hr. apply (scan_all c (C05_check c) (fun s => Inv c s /\ InvFix c s)); auto.
   - intros s [Hi Hf]. unfold C05_check. apply andb_true_iff. split; [apply andb_true_iff; split|].
     + apply Nat.leb_le. apply one_more. apply (i_stop _ _ Hi).
     + destruct (cN c) as [[|n]|] eqn:En; auto. apply Nat.leb_le. eapply budget_bound; eauto.
